@@ -500,13 +500,21 @@ impl Retrier {
         while self.has_pending_appointments() {
             let locators = self.pending_appointments.lock().unwrap().clone();
             for locator in locators.into_iter() {
-                let appointment = self
-                    .wt_client
-                    .lock()
-                    .unwrap()
-                    .dbm
-                    .load_appointment(locator)
-                    .unwrap();
+                let appointment = {
+                    let wt_client = self.wt_client.lock().unwrap();
+                    if !wt_client.towers.contains_key(&self.tower_id) {
+                        // The tower was abandoned while we were working (its data is gone)
+                        return Err(Error::permanent(RetryError::Abandoned));
+                    }
+                    wt_client.dbm.load_appointment(locator)
+                };
+                let appointment = if let Some(a) = appointment {
+                    a
+                } else {
+                    log::warn!("Cannot find {locator} in the database. Skipping it");
+                    self.pending_appointments.lock().unwrap().remove(&locator);
+                    continue;
+                };
 
                 match http::add_appointment(
                     tower_id,
